@@ -138,8 +138,13 @@ func detEval(src string) (o detOutcome) {
 	var out, log bytes.Buffer
 	var prog *bcl.Prog
 	var err error
+	// the introspection options are part of the input: chosen from the text, so that
+	// every repetition of an input uses the same ones (statistics, disassembly and trace
+	// go to the log and must repeat as well)
+	hs := sha1.Sum([]byte(src))
+	stats, disasm, trace := hs[0]&1 == 1, hs[0]&6 == 6, hs[0]&24 == 24
 	if p := guardedCall(func() {
-		prog, err = bcl.Parse([]byte(src), "input", bcl.OptOutput(&out), bcl.OptLogger(&log))
+		prog, err = bcl.Parse([]byte(src), "input", bcl.OptOutput(&out), bcl.OptLogger(&log), bcl.OptStats(stats), bcl.OptDisasm(disasm))
 	}); p != "" {
 		o.parse = p
 		return o
@@ -158,7 +163,9 @@ func detEval(src string) (o detOutcome) {
 			var blocks []bcl.Block
 			var binding bcl.Binding
 			var xerr error
-			p := guardedCall(func() { blocks, binding, xerr = bcl.Execute(prog) })
+			p := guardedCall(func() {
+				blocks, binding, xerr = bcl.Execute(prog, bcl.OptOutput(&out), bcl.OptLogger(&log), bcl.OptStats(stats), bcl.OptTrace(trace))
+			})
 			e := "-"
 			if xerr != nil {
 				e = xerr.Error()
